@@ -13,6 +13,7 @@ pub mod c17;
 pub mod c18;
 pub mod c19;
 pub mod c20;
+pub mod maint;
 pub mod single;
 pub mod table_common;
 
@@ -26,6 +27,7 @@ pub fn spec(id: &str) -> Option<PropertySpec> {
         "C08" => c08::spec(),
         "C09" => c09::spec(),
         "C10" => c10::spec(),
+        "C11" => maint::spec_c11(),
         "C12" => c12::spec(),
         "C13" => c13::spec(),
         "C14" => c14::spec(),
